@@ -41,11 +41,14 @@ func (e *Exec) loopSpecFor(node ast.Node, ctx *Ctx) *loopInfo {
 // assignedVars collects the variables assigned anywhere under the given nodes (including nested function literals
 // and the literals bound to function-typed parameters that are called there).
 func (e *Exec) assignedVars(st *State, info *types.Info, nodes ...ast.Node) (map[*types.Var]bool, map[string]types.Type) {
+	e.directAssigned = map[*types.Var]bool{}
 	vars := map[*types.Var]bool{}
 	fields := map[string]types.Type{}
 	seen := map[ast.Node]bool{}
 	var walk func(n ast.Node, info *types.Info)
 	base := func(x ast.Expr, info *types.Info) {
+		direct := true
+		defer func() {}()
 		for {
 			switch y := x.(type) {
 			case *ast.ParenExpr:
@@ -53,6 +56,7 @@ func (e *Exec) assignedVars(st *State, info *types.Info, nodes ...ast.Node) (map
 				continue
 			case *ast.IndexExpr:
 				x = y.X
+				direct = false
 				continue
 			case *ast.SelectorExpr:
 				if sel, ok := info.Selections[y]; ok && sel.Kind() == types.FieldVal {
@@ -64,6 +68,9 @@ func (e *Exec) assignedVars(st *State, info *types.Info, nodes ...ast.Node) (map
 			case *ast.Ident:
 				if v, ok := info.ObjectOf(y).(*types.Var); ok {
 					vars[v] = true
+					if direct {
+						e.directAssigned[v] = true
+					}
 				}
 				return
 			default:
@@ -101,7 +108,7 @@ func (e *Exec) assignedVars(st *State, info *types.Info, nodes ...ast.Node) (map
 						}
 					}
 					if b, ok := info.Uses[id].(*types.Builtin); ok && b.Name() == "delete" && len(s.Args) > 0 {
-						base(s.Args[0], info)
+						base(&ast.IndexExpr{X: s.Args[0]}, info)
 					}
 				}
 				if callee := e.calleeOf(s, info); callee != nil {
@@ -138,6 +145,19 @@ func (e *Exec) havoc(st *State, vars map[*types.Var]bool, fields map[string]type
 		if inv := typeInv(t, v.Type()); inv != "" {
 			st.pc = append(st.pc, inv)
 		}
+		if st.nonNil[v] && !e.directAssigned[v] {
+			// a non-nil map that the loop only index-assigns / deletes from stays non-nil
+			st.pc = append(st.pc, "((_ is VMap) "+t+")")
+		} else {
+			delete(st.nonNil, v)
+		}
+	}
+	{
+		// allocations inside the loop move the boundary up
+		st.ghosts["allocTop@loop"] = st.top
+		nt := e.fresh(st, "allocTop", "Int")
+		st.pc = append(st.pc, "(>= "+nt+" "+st.top+")")
+		st.top = nt
 	}
 	var fs []string
 	for k := range fields {
@@ -262,6 +282,7 @@ func (e *Exec) execRange(s *ast.RangeStmt, label string, st *State, ctx *Ctx, k 
 			init.ghosts[v.Name()+"@loop"] = init.env[v]
 		}
 	}
+	init.ghosts["allocTop@loop"] = init.top
 	e.checkInvs(init, li, "init", ctx)
 
 	// 2. arbitrary iteration: havoc, assume invariants
@@ -433,9 +454,20 @@ func (e *Exec) execFor(s *ast.ForStmt, label string, st *State, ctx *Ctx, k func
 				init.ghosts[v.Name()+"@loop"] = init.env[v]
 			}
 		}
+		init.ghosts["allocTop@loop"] = init.top
 		e.checkInvs(init, li, "init", ctx)
 		head := st.clone()
 		e.havoc(head, vars, fields)
+		if iv, up := e.countingVar(s, vars, info); iv != nil {
+			// syntactic fact about counting loops: the counter never moves back past its initial value
+			if t0, ok := head.ghosts[iv.Name()+"@loop"]; ok {
+				if up {
+					head.pc = append(head.pc, "(>= "+head.env[iv]+" "+t0+")")
+				} else {
+					head.pc = append(head.pc, "(<= "+head.env[iv]+" "+t0+")")
+				}
+			}
+		}
 		e.assumeInvs(head, li, ctx)
 		cond := "true"
 		if s.Cond != nil {
@@ -463,7 +495,9 @@ func (e *Exec) execFor(s *ast.ForStmt, label string, st *State, ctx *Ctx, k func
 				fin(st2)
 			}
 		}
-		if len(measure0) == 0 && e.sweep {
+		if len(measure0) == 0 && e.sweep && e.countingLoop(s, vars, info) {
+			e.note("counting loops (i from a to b by a constant step, bound and counter not written in the body) terminate: decided syntactically")
+		} else if len(measure0) == 0 && e.sweep {
 			// a for-loop without a measure: termination is not established
 			e.emit(head, "term", fmt.Sprintf("loop[%s].decreases", li.key), "false", []string{"C08"}, li.pos, "for-loop has no decreases clause")
 		}
@@ -498,4 +532,95 @@ func lexLess(a, b []string) string {
 		return alts[0]
 	}
 	return "(or " + strings.Join(alts, " ") + ")"
+}
+
+// countingLoop recognises `for i := a; i < n; i++` (and `i+1 < n`, `i += c`, and the descending `i >= c; i--`) where
+// neither i nor any variable of the bound is assigned in the body: such a loop terminates.
+func (e *Exec) countingLoop(s *ast.ForStmt, assigned map[*types.Var]bool, info *types.Info) bool {
+	iv, _ := e.countingVar(s, assigned, info)
+	return iv != nil
+}
+
+func (e *Exec) countingVar(s *ast.ForStmt, assigned map[*types.Var]bool, info *types.Info) (*types.Var, bool) {
+	v, up, ok := e.countingVar1(s, assigned, info)
+	if !ok {
+		return nil, false
+	}
+	return v, up
+}
+
+func (e *Exec) countingVar1(s *ast.ForStmt, assigned map[*types.Var]bool, info *types.Info) (*types.Var, bool, bool) {
+	cond, ok := s.Cond.(*ast.BinaryExpr)
+	if !ok || s.Post == nil {
+		return nil, false, false
+	}
+	var iv *types.Var
+	up := false
+	switch p := s.Post.(type) {
+	case *ast.IncDecStmt:
+		id, ok := p.X.(*ast.Ident)
+		if !ok {
+			return nil, false, false
+		}
+		iv, _ = info.ObjectOf(id).(*types.Var)
+		up = p.Tok == token.INC
+	case *ast.AssignStmt:
+		if len(p.Lhs) != 1 || (p.Tok != token.ADD_ASSIGN && p.Tok != token.SUB_ASSIGN) {
+			return nil, false, false
+		}
+		id, ok := p.Lhs[0].(*ast.Ident)
+		if !ok {
+			return nil, false, false
+		}
+		tv := info.Types[p.Rhs[0]]
+		if tv.Value == nil || tv.Value.String() == "0" || tv.Value.String()[0] == '-' {
+			return nil, false, false
+		}
+		iv, _ = info.ObjectOf(id).(*types.Var)
+		up = p.Tok == token.ADD_ASSIGN
+	default:
+		return nil, false, false
+	}
+	if iv == nil {
+		return nil, false, false
+	}
+	// the counter must not be assigned in the body (it is assigned in Post, which assignedVars includes: recompute for the body only)
+	bodyVars, _ := e.assignedVars(&State{closures: map[*types.Var]*ast.FuncLit{}}, info, s.Body)
+	if bodyVars[iv] {
+		return nil, false, false
+	}
+	mentions := func(x ast.Expr, v *types.Var) bool {
+		found := false
+		ast.Inspect(x, func(n ast.Node) bool {
+			if id, ok := n.(*ast.Ident); ok && info.ObjectOf(id) == v {
+				found = true
+			}
+			return true
+		})
+		return found //
+	}
+	stable := func(x ast.Expr) bool {
+		okk := true
+		ast.Inspect(x, func(n ast.Node) bool {
+			switch y := n.(type) {
+			case *ast.Ident:
+				if v, ok := info.ObjectOf(y).(*types.Var); ok && bodyVars[v] {
+					okk = false
+				}
+			case *ast.CallExpr:
+				if id, ok := y.Fun.(*ast.Ident); !ok || id.Name != "len" {
+					okk = false
+				}
+			}
+			return true
+		})
+		return okk
+	}
+	switch cond.Op {
+	case token.LSS, token.LEQ:
+		return iv, up, up && mentions(cond.X, iv) && !mentions(cond.Y, iv) && stable(cond.Y)
+	case token.GTR, token.GEQ:
+		return iv, up, !up && mentions(cond.X, iv) && !mentions(cond.Y, iv) && stable(cond.Y)
+	}
+	return nil, false, false
 }
